@@ -107,6 +107,14 @@ impl DhtHandler {
     }
 
     async fn run_once(&mut self) {
+        #[cfg(btdht_verif)]
+        crate::verif::counters::pending(
+            self.this_node_id,
+            self.timer
+                .count_where(|c| matches!(c, ScheduledTaskCheck::TableRefresh)),
+            self.timer.count_where(|_| true),
+        );
+
         select! {
             token = self.timer.next(), if !self.timer.is_empty() => {
                 // `unwrap` is OK because we checked the timer is non-empty, so it should never
@@ -410,6 +418,9 @@ impl DhtHandler {
     }
 
     async fn handle_bootstrap_success(&mut self) {
+        #[cfg(btdht_verif)]
+        crate::verif::counters::bootstrap_completion(self.this_node_id);
+
         // Send notification that the bootstrap has completed.
         for (_, tx) in self.bootstrap_txs.drain() {
             tx.send(()).unwrap_or(())
